@@ -79,6 +79,26 @@ def getBool (n : Node) (f : Field) (b : Bytes) : Option Bool :=
 def hasPtr (n : Node) (f : Field) (b : Bytes) (slots : Nat → Bool) : Bool :=
   tagOk n f b && slots f.offset
 
+/-! pointer fields holding text: the slot is `none` for a null pointer -/
+abbrev TextSlot := Option (List Nat)
+
+/-- `Struct.SetText`: the empty string is stored as a null pointer -/
+def structSetText (v : List Nat) : TextSlot := if v = [] then none else some v
+/-- `Struct.SetNewText`: always allocates, also for the empty string -/
+def structSetNewText (v : List Nat) : TextSlot := some v
+/-- `Ptr.TextDefault`: a null pointer reads as the default -/
+def textDefault (p : TextSlot) (d : List Nat) : List Nat := match p with | none => d | some s => s
+
+/-- the generated setter and getter of a Text field whose schema default is `d` (`[]`: no default) -/
+def genSetText (d v : List Nat) : TextSlot := if d = [] then structSetText v else structSetNewText v
+def genGetText (d : List Nat) (p : TextSlot) : List Nat := textDefault p d
+
+/-- the generated setter of an interface-typed field: `_settag`, then null for an invalid client (early return), else the
+    capability; `setIfaceLate` is the variant that stores the discriminant only on the non-null path -/
+def setIface (n : Node) (f : Field) (b : Bytes) (c : Option Nat) : Bytes × Option Nat := (setTag n f b, c)
+def setIfaceLate (n : Node) (f : Field) (b : Bytes) (c : Option Nat) : Bytes × Option Nat :=
+  match c with | none => (b, none) | some k => (setTag n f b, some k)
+
 /-- `NewT` allocates exactly what the node declares -/
 def objectSize (n : Node) : Nat × Nat := (n.dataWords * 8, n.ptrs)
 
